@@ -36,6 +36,8 @@ CHECKS = {
     "C14": "gen.c14",
     "C15": "gen.c15",
     "C16": "gen.c16",
+    "C17": "gen.c17",
+    "C18": "gen.c18",
     "C19": "gen.c19",
     "C20": "gen.c20",
 }
